@@ -86,7 +86,7 @@ def container_writes(func, var):
         if isinstance(st, ast.Expr) and isinstance(st.value, ast.Call):
             c = st.value
             cn = call_name(c) or ""
-            if cn in (f"{var}.set_annotation", f"{var}.add_annotation"):
+            if cn in (f"{var}.set_annotation", f"{var}.add_annotation", f"{var}._annot.update", f"{var}._annot.setdefault", f"{var}._annot.__setitem__"):
                 out.setdefault("annot", []).append(st)
             if cn.endswith("._copy_annotations") and c.args and dotted(c.args[0]) == var:
                 for f in ("annot", "box", "bonds"):
@@ -366,10 +366,26 @@ def run(ctx):
            "otherwise later indices are not offset", cc.lineno)
     # the box of the first element that has one
     first_box = False
+    from ..facts import conjuncts as _cj
+    from ..exprnorm import canon as _cn, spec as _sp
+    seq_par = param_names(cc)[0]
+    for lp in walk_local(cc):
+        # (a) for element in atoms: if element.box is not None and box is None: box = element.box
+        if isinstance(lp, ast.For) and isinstance(lp.target, ast.Name) and same_expr(lp.iter, seq_par):
+            ev = lp.target.id
+            for st in ast.walk(lp):
+                if isinstance(st, ast.If) and not st.orelse and len(st.body) == 1 and isinstance(st.body[0], ast.Assign) \
+                        and isinstance(st.body[0].targets[0], ast.Name) and same_expr(st.body[0].value, f"{ev}.box"):
+                    bv = st.body[0].targets[0].id
+                    if {repr(_cn(c_)) for c_ in _cj(st.test)} == {repr(_sp(f"{ev}.box is not None")), repr(_sp(f"{bv} is None"))}:
+                        first_box = True
     for st in stmts(cc):
-        if isinstance(st, ast.If) and "box" in ast.unparse(st.test):
-            t = ast.unparse(st.test)
-            if "element.box is not None" in t and "box is None" in t.replace("element.box is not None", ""):
+        # (b) box = next((element.box for element in atoms if element.box is not None), None)
+        if isinstance(st, ast.Assign) and isinstance(st.value, ast.Call) and call_name(st.value) == "next" and len(st.value.args) == 2 \
+                and same_expr(st.value.args[1], "None") and isinstance(st.value.args[0], ast.GeneratorExp) and len(st.value.args[0].generators) == 1:
+            g_ = st.value.args[0].generators[0]
+            if isinstance(g_.target, ast.Name) and same_expr(g_.iter, seq_par) and len(g_.ifs) == 1 \
+                    and same_expr(g_.ifs[0], f"{g_.target.id}.box is not None") and same_expr(st.value.args[0].elt, f"{g_.target.id}.box"):
                 first_box = True
     ctx.ob("R1.concatenate-box", ATOMS, "concatenate", "box of the first element that has one", first_box,
            "concatenate must transfer the box of the *first* element with a box (documented)", cc.lineno)
